@@ -84,6 +84,14 @@ class C17(Prop):
         for a in range(0, lim):
             for b in range(0, lim):
                 n_eval += 1
+                if a < 25 and b < 25:
+                    try:
+                        got_r = simp(el.orderless_range(a, b, ctx))
+                    except Exception as e:  # noqa
+                        got_r = f"raised {type(e).__name__}: {e}"
+                    w = chk("range a..b", (a, b), got_r, list(range(a, b)) if a <= b else list(range(a, b, -1)))
+                    if w:
+                        return w, n_eval
                 for name, got, want in [("gcd", int(el.vy_gcd(a, b, ctx)), math.gcd(a, b)), ("lcm", int(el.lowest_common_multiple(a, b, ctx)), math.lcm(a, b)), ("binomial", int(el.n_choose_r(a, b, ctx)), math.comb(a, b))]:
                     w = chk(name, (a, b), got, want)
                     if w:
